@@ -568,35 +568,44 @@ def mask_expr(case):
     return "(fun _ => true)" if mask is None else "(mask_of [%s])" % "; ".join(cbool(bool(b)) for b in mask)
 
 
+def obs_expr(n, edges):
+    return "uf_run_obs %d (el [%s]%%Z)" % (n, "; ".join("(%d, %d, %d)" % e for e in edges))
+
+
 def case_expr(case, obs):
+    """one expression per case:
+    (union-find observables of call 0, of call 1, model increments on quantised input,
+     the model's grid edges, reliability + sorted keys (or 0), embedding structure (or 0))"""
     n = case["H"] * case["W"]
-    parts = [edges_expr(n, c["edges"]) for c in obs["calls"][:2]]
+    parts = [obs_expr(n, c["edges"]) for c in obs["calls"][:2]]
     while len(parts) < 2:
-        parts.append("(@None (list Z))")
+        parts.append("(@None (list Z * (list Z * list Z * list Z)))")
     g = grid_expr(case) if case["quant"] else "(@nil (Z * Z * Z))"
-    return "(%s, %s, %s)" % (parts[0], parts[1], g)
+    pairs = "zpairs (grid_pairs %d %d %s %s)" % (case["H"], case["W"], cbool(case["wrap"]), mask_expr(case))
+    rel = rel_expr(case) if rel_wanted(case, obs) else "0%Z"
+    bf = bf_expr(case, obs) if case["route"] == "bf" and not obs["rec_problem"] else "0%Z"
+    return "(%s, %s, %s, %s, %s, %s)" % (parts[0], parts[1], g, pairs, rel, bf)
 
 
-def state_expr(n, edges):
-    return "uf_state %d (el [%s]%%Z)" % (n, "; ".join("(%d, %d, %d)" % e for e in edges))
+def split_val(v):
+    """-> (value for compare_case, value for compare_case2, rel value, bf value)"""
+    offs, states = [], []
+    for k in (0, 1):
+        if isinstance(v[k], tuple) and v[k][0] == "Some":
+            offs.append(("Some", v[k][1][0]))
+            states.append(("Some", v[k][1][1]))
+        else:
+            offs.append(None)
+            states.append(None)
+    return (offs[0], offs[1], v[2]), (v[3], states[0], states[1]), v[4], v[5]
 
 
-def case_expr2(case, obs):
-    """(the model's grid edges, union-find state after call 0, after call 1)"""
-    n = case["H"] * case["W"]
-    parts = [state_expr(n, c["edges"]) for c in obs["calls"][:2]]
-    while len(parts) < 2:
-        parts.append("(@None (list Z * list Z * list Z))")
-    return "(zpairs (grid_pairs %d %d %s %s), %s, %s)" % (
-        case["H"], case["W"], cbool(case["wrap"]), mask_expr(case), parts[0], parts[1])
-
-
-REL_MAX = 100      # pixels: the reliability / sort comparison runs on quantised cases up to this size
+REL_MAX = 64      # pixels: the reliability / sort comparison runs on quantised cases up to this size
 
 
 def rel_wanted(case, obs):
     return bool(case["quant"] and case["route"] == "direct" and case["H"] * case["W"] <= REL_MAX
-                and obs["calls"] and not obs["rec_problem"])
+                and obs["calls"] and not obs["rec_problem"] and case.get("rel_slot", True))
 
 
 def rel_expr(case):
@@ -957,15 +966,33 @@ def check_grid(ctx: Ctx):
         bad = oracle(case, obs)
         if bad:
             ctx.violation(bad[0], bad[1], {"kind": "grid", "case": case})
-        exprs.append(case_expr(case, obs))
     cases = kept
     if not cases:
         return
     big = any(c["H"] * c["W"] > 200 for c in cases)
-    vals = ceval(ctx, "grid", exprs, 6 if big else 12)
+    # the reliability / sort comparison is the expensive part of the model run: bounded number of cases
+    slots = ctx.budget(45, 250)
+    for c, o in zip(cases, obs_all):
+        c["rel_slot"] = True
+        if rel_wanted(c, o):
+            if slots <= 0:
+                c["rel_slot"] = False
+            slots -= 1
+    exprs = [case_expr(c, o) for c, o in zip(cases, obs_all)]
+    vals = ceval(ctx, "grid", exprs, 6 if big else 10)
+    from collections import Counter
+    stats = Counter()
     nd = 0
     for case, obs, v in zip(cases, obs_all, vals):
-        mism, near = compare_case(case, obs, v)
+        v1, v2, vrel, vbf = split_val(v)
+        mism, near = compare_case(case, obs, v1)
+        mism = list(mism) + compare_case2(case, obs, v2)
+        if rel_wanted(case, obs):
+            mism += compare_rel(case, obs, vrel, stats)
+            stats["rel_cases"] += 1
+        if case["route"] == "bf" and not obs["rec_problem"]:
+            mism += compare_bf(case, obs, vbf, stats)
+            stats["bf_cases"] += 1
         near_total += near
         ctx.cov["traces_validated_against_impl"] += 1
         for key, what in mism:
@@ -974,33 +1001,8 @@ def check_grid(ctx: Ctx):
             ctx.violation(key, what + "  [case H=%d W=%d wrap_around=%s mask=%s field=%s mode=%s route=%s]" % (
                 case["H"], case["W"], case["wrap"], case["mask_kind"], case["field"], case["mode"], case["route"]),
                 {"kind": "grid", "case": case}, found_input=oracle(case, obs) is not None)
-    ctx.cov["near_threshold_pairs_excluded"] = near_total
-    # round 3: order = permutation of the grid edges, union-find state, reliability + sort, embedding
-    from collections import Counter
-    stats = Counter()
-    vals2 = ceval(ctx, "grid2", [case_expr2(c, o) for c, o in zip(cases, obs_all)], 6 if big else 12)
-    rel_idx = [i for i, (c, o) in enumerate(zip(cases, obs_all)) if rel_wanted(c, o)]
-    rel_idx = rel_idx[:ctx.budget(70, 250)]
-    vrel = ceval(ctx, "rel", [rel_expr(cases[i]) for i in rel_idx], 3) if rel_idx else []
-    bf_idx = [i for i, c in enumerate(cases) if c["route"] == "bf"]
-    vbf = ceval(ctx, "bf", [bf_expr(cases[i], obs_all[i]) for i in bf_idx], 12) if bf_idx else []
-    extra = [[] for _ in cases]
-    for i, v in enumerate(vals2):
-        extra[i] += compare_case2(cases[i], obs_all[i], v)
-    for i, v in zip(rel_idx, vrel):
-        extra[i] += compare_rel(cases[i], obs_all[i], v, stats)
-        stats["rel_cases"] += 1
-    for i, v in zip(bf_idx, vbf):
-        extra[i] += compare_bf(cases[i], obs_all[i], v, stats)
-        stats["bf_cases"] += 1
-    for case, obs, mism in zip(cases, obs_all, extra):
-        for key, what in mism:
-            nd += 1
-            ctx.cov["disagreements_checked"] += 1
-            ctx.violation(key, what + "  [case H=%d W=%d wrap_around=%s mask=%s field=%s mode=%s route=%s]" % (
-                case["H"], case["W"], case["wrap"], case["mask_kind"], case["field"], case["mode"], case["route"]),
-                {"kind": "grid", "case": case}, found_input=oracle(case, obs) is not None)
     ctx.cov["round3_correspondence"] = dict(stats)
+    ctx.cov["near_threshold_pairs_excluded"] = near_total
     mid = cases[len(cases) // 3]
     ctx.sample({"kind": "grid", "H": mid["H"], "W": mid["W"], "wrap_around": mid["wrap"], "mask": mid["mask"],
                 "field": mid["field"], "mode": mid["mode"], "route": mid["route"],
@@ -1029,18 +1031,21 @@ def state_eq(mv, st):
 def uf_direct_expr(n, edges, small):
     es = "(el [%s]%%Z)" % "; ".join("(%d, %d, %d)" % e for e in edges)
     tr = "uf_trace %d %s" % (n, es) if small else "(@nil (option (list Z * list Z * list Z)))"
-    return "(uf_offsets %d %s, uf_state %d %s, %s)" % (n, es, n, es, tr)
+    return "(uf_run_obs %d %s, %s)" % (n, es, tr)
 
 
 def compare_uf_direct(n, edges, offs, st, trace, v):
-    if not (isinstance(v[0], tuple) and v[0][0] == "Some" and [float(z) for z in v[0][1]] == offs):
-        return "final offsets: impl %s model %s" % (offs, v[0])
-    if not state_eq(v[1], st):
-        return "final (parent, rank, offset): impl %s model %s" % (st, v[1])
+    if not (isinstance(v[0], tuple) and v[0][0] == "Some"):
+        return "model union-find returned None (fuel exhausted)"
+    moffs, mstate = v[0][1]
+    if [float(z) for z in moffs] != offs:
+        return "final offsets: impl %s model %s" % (offs, moffs)
+    if not state_eq(("Some", mstate), st):
+        return "final (parent, rank, offset): impl %s model %s" % (st, mstate)
     if trace is not None:
-        if len(v[2]) != len(trace):
-            return "trace length: impl %d model %d" % (len(trace), len(v[2]))
-        for k, (mv, t) in enumerate(zip(v[2], trace)):
+        if len(v[1]) != len(trace):
+            return "trace length: impl %d model %d" % (len(trace), len(v[1]))
+        for k, (mv, t) in enumerate(zip(v[1], trace)):
             if not state_eq(mv, t):
                 return "state after union %d %s: impl %s model %s" % (k, edges[k], t, mv)
     return None
@@ -1239,27 +1244,39 @@ def run(ctx: Ctx):
                       "_final_offsets", "_unwrap_phase_2d_torch_reliability_sorting", "unwrap_phase_2d_torch"])
     ctx.hash_sources("diffractive_imaging/direct_ptycho_utils.py", ["unwrap_bf_overlap_phase_torch"])
     ctx.cov["rule"] = (
-        "grid cases: (H, W, wrap_around, mask, field, mode, route): shapes 1x1..12x12 quick / ..32x32 thorough incl. "
-        "1xN, Nx1, 2x2 (self / duplicate wrap edges); fields ramp, quadratic, Gaussian bump, ramp+bump, band-limited "
-        "random, periodic (integer frequencies, for wrap_around), all scaled so the largest difference across a used "
-        "edge is s*pi, s in [0.3, 0.96]; masks none/full/holes/split bands/Bernoulli/annular blob; modes smooth "
-        "(wrapped by mod or angle), already (unwrapped input), noise (non-smooth: congruence + correspondence only); "
-        "routes unwrap_phase_2d_torch and unwrap_bf_overlap_phase_torch (masked embedding, one or two passes). "
-        "UnionFindPhase is also driven directly with random cyclic edge lists. A case is distinct by its arrays; "
-        "non-trivial when the wrapped input differs from the field by at least one 2*pi jump (or mode=already) and "
-        "there is at least one edge")
+        "grid cases: (H, W, wrap_around, mask, field, mode, route, hand-over): shapes 1x1..12x12 quick / ..32x32 thorough "
+        "plus a thin-grid family (1xN, Nx1, 2xN, Nx2: self / duplicate wrap edges) and a seam family; fields ramp, "
+        "quadratic, Gaussian bump, ramp+bump, band-limited random, periodic (integer frequencies, for wrap_around), all "
+        "scaled so the largest difference across a used edge is s*pi, s in [0.3, 0.96], steep family s in [0.97, 0.999] "
+        "(>= 2e-3 below pi after float32 rounding); masks none/full/holes/split bands/Bernoulli/annular blob/seam (pieces "
+        "that touch only across the wrap-around seam)/isolated (single-pixel components); modes smooth (wrapped by mod or "
+        "angle), already (unwrapped input), offset2pi (wrapped input shifted by integer multiples of 2*pi, per component "
+        "or globally), flat (embedding route: wrapped span below pi, returned as is), noise (non-smooth: congruence + "
+        "correspondence only); routes unwrap_phase_2d_torch (float32/float64, contiguous/transposed/strided tensors, "
+        "bool/uint8/int64/float32 masks, requires_grad) and unwrap_bf_overlap_phase_torch (masked embedding, one or two "
+        "passes, wrap_around passed or defaulted). UnionFindPhase is also driven directly with random cyclic edge lists "
+        "(state compared after every union for n <= 12), _wrap_to_pi directly. A case is distinct by its arrays and "
+        "hand-over; non-trivial when the wrapped input differs from the field by at least one 2*pi jump (or mode=already) "
+        "and there is at least one edge")
     ctx.assumptions += [
         "float32 arithmetic of the implementation vs exact rationals of the model: inputs keep every wrapped edge "
-        "difference at least 0.04*pi away from the threshold pi; quantised (k/65536) inputs make the edge-increment "
+        "difference at least 2e-3 away from the threshold pi; quantised (k/65536) inputs make the edge-increment "
         "comparison exact; pairs within 1e-5 of the threshold are excluded and counted",
         "torch.roll/arange/stack/argsort, tensor indexing and .item() behave as documented (exercised, not proved)",
-        "the reliability sort only chooses an order: the theorems hold for every order, so it is not modelled",
+        "the reliability sort only chooses an order: the theorems hold for every order; the model's reliability values "
+        "(float32 pi as the half-period) are compared with _pixel_reliability to 2e-3 on quantised inputs of at most 64 "
+        "pixels, pixels with a wrapped difference within 1e-4 of the discontinuity skipped; torch.argsort is not stable, "
+        "so only 'keys ascend along the real order' (5e-3 slack) is compared, ties free",
+        "embedding route: torch.angle / boolean-mask assignment and indexing behave as documented; the structure "
+        "(which sample sits where, branch, read-back positions) is computed by the model, the float arithmetic of each "
+        "stage by numpy from the recorded data",
     ]
     ctx.cov["trusted_base"] += [
         "Coq 8.16.1 kernel incl. vm_compute (used to run the model); no native_compute",
-        "hand-written model coq/model/C17_Model.v tied to /repo by this correspondence run",
-        "harness/props/C17.py (generators, recorder around _build_edges/_final_offsets, oracle, printers), harness/common.py",
-        "theorems are over Q with an arbitrary half-period P; the implementation uses float32 with P = pi "
+        "hand-written model coq/model/C17_Model.v + C17_Model_Ext.v tied to /repo by this correspondence run",
+        "harness/props/C17.py (generators, recorder around _pixel_reliability/_build_edges/_final_offsets, oracle, "
+        "printers), harness/common.py",
+        "theorems are over Q with an arbitrary half-period P; the implementation uses float32/float64 with P = pi "
         "(agreement to 1e-4 is validated on every case, not proved)",
     ]
     ctx.proofs_or_violation()
@@ -1282,15 +1299,17 @@ def replay(ctx: Ctx, path):
             print("unwrapping raises %s: %s" % (type(e).__name__, e))
             return 1
         bad = oracle(case, obs)
-        v = ceval(ctx, "replay", [case_expr(case, obs)], 1)[0]
-        mism, near = compare_case(case, obs, v)
         from collections import Counter
         stats = Counter()
-        mism = list(mism) + compare_case2(case, obs, ceval(ctx, "replay2", [case_expr2(case, obs)], 1)[0])
+        v = ceval(ctx, "replay", [case_expr(case, obs)], 1)[0]
+        v1, v2, vrel, vbf = split_val(v)
+        mism, near = compare_case(case, obs, v1)
+        mism = list(mism) + compare_case2(case, obs, v2)
         if rel_wanted(case, obs):
-            mism += compare_rel(case, obs, ceval(ctx, "replay3", [rel_expr(case)], 1)[0], stats)
-        if case["route"] == "bf":
-            mism += compare_bf(case, obs, ceval(ctx, "replay4", [bf_expr(case, obs)], 1)[0], stats)
+            mism += compare_rel(case, obs, vrel, stats)
+        if case["route"] == "bf" and not obs["rec_problem"]:
+            mism += compare_bf(case, obs, vbf, stats)
+        v = v1
         phi, x, mask = case_arrays(case)
         print("case: H=%d W=%d wrap_around=%s route=%s mode=%s field=%s mask=%s" % (
             case["H"], case["W"], case["wrap"], case["route"], case["mode"], case["field"], case["mask_kind"]))
@@ -1317,7 +1336,7 @@ def replay(ctx: Ctx, path):
         v = ceval(ctx, "replay", [uf_direct_expr(n, edges, True)], 1)[0]
         why = compare_uf_direct(n, edges, offs, st, trace, v)
         print("impl offsets:", offs, "state:", st)
-        print("model:", v[0], v[1])
+        print("model:", v[0])
         print("correspondence:", why or "agrees")
         return 1 if why else 0
     if rp.get("kind") == "wrap":
